@@ -123,6 +123,8 @@ def addStr (f : FmtStr) (t : Text) : FmtStr := f ++ [⟨t, {}⟩]
 def raddStr (f : FmtStr) (t : Text) : FmtStr := ⟨t, {}⟩ :: f
 /-- `FmtStr.__mul__`: `sum((self for _ in range(n)), FmtStr())`; `range` of a negative is empty. -/
 def mul (f : FmtStr) (n : Int) : FmtStr := (List.replicate n.toNat f).flatten
+/-- `FmtStr.__rmul__ = __mul__` (`n * f`) -/
+def rmul (n : Int) (f : FmtStr) : FmtStr := mul f n
 
 /-- `FmtStr.join` over items already converted to FmtStr (`fmtstr(s).chunks` for a str item).
     `before` is the running variable: empty before the first item, `self.chunks` afterwards. -/
@@ -165,6 +167,9 @@ def spliceLoop (new : List Chunk) (start end_ : Nat) :
       spliceLoop new start end_ bfsEnd inserted rest
 
 /-- `FmtStr.splice(new_fs, start, end)` with `new` already a FmtStr.
+    Domain: `start ≤ end` (the property's range). For `end < start` Python slices with a NEGATIVE offset
+    (`bfs.s[end - bfs_start:]` wraps) while `end_ - bfsStart` below is truncated subtraction: the model does not
+    mirror the code there, and the driver refuses such requests.
     (`len(new_str) == 0 and (end is None or end <= start)` returns `self`.) -/
 def splice (f : FmtStr) (new : FmtStr) (start : Nat) (end_ : Option Nat) : FmtStr :=
   if len new = 0 ∧ end_.getD start ≤ start then f
@@ -216,8 +221,11 @@ def sharedAtts (f : FmtStr) : Except PyErr Atts :=
     let first := match nonempty with | [] => head | c :: _ => c
     .ok (nonempty.foldl (fun acc c => acc.inter c.atts) first.atts)
 
-/-- `copy_with_new_str(new_str)`: the merged dict of all chunks, later chunks overriding. -/
+/-- `copy_with_new_str(new_str)`: the merged dict of the NON-EMPTY chunks (of all chunks when every chunk is
+    empty), later chunks overriding. -/
 def copyWithNewStr (f : FmtStr) (t : Text) : FmtStr :=
-  [⟨t, f.foldl (fun acc c => acc.extend c.atts) {}⟩]
+  let nonempty := f.filter fun c => !c.s.isEmpty
+  let chunks := if nonempty.isEmpty then f else nonempty
+  [⟨t, chunks.foldl (fun acc c => acc.extend c.atts) {}⟩]
 
 end Curtsies
